@@ -168,3 +168,41 @@ func VH_C15_v2_history() {
 	vrt.Observe("temporal score", em2.TemporalMetrics().Score())
 	vrt.Observe("base score", em2.BaseMetrics().Score())
 }
+
+// C09/C14/C15 (v2): a decoder object used for a second Decode; see the v3 counterpart.
+func VH_C15_v2_reuse() {
+	vec1, _, _, _, _, _, _ := pickBase()
+	tsuf1, _, _, _ := pickTemporal()
+	esuf1, _, _, _, _, _ := pickEnv()
+	vec2, _, _, _, _, _, _ := pickBase()
+	tsuf2, _, _, _ := pickTemporal()
+	esuf2, _, _, _, _, _ := pickEnv()
+	first := vec1
+	if vrt.Pick("tgroup1", "absent", "present") == "present" {
+		first = first + tsuf1
+	}
+	if vrt.Pick("egroup1", "absent", "present") == "present" {
+		first = first + esuf1
+	}
+	second := vec2
+	if vrt.Pick("tgroup2", "absent", "present") == "present" {
+		second = second + tsuf2
+	}
+	if vrt.Pick("egroup2", "absent", "present") == "present" {
+		second = second + esuf2
+	}
+	d := NewEnvironmental()
+	_, _ = d.Decode(first)
+	got, err := d.Decode(second)
+	if err == nil {
+		fresh, ferr := NewEnvironmental().Decode(second)
+		ge, _ := got.Encode()
+		fe, _ := fresh.Encode()
+		gt, _ := got.TemporalMetrics().Encode()
+		ft, _ := fresh.TemporalMetrics().Encode()
+		gb, _ := got.BaseMetrics().Encode()
+		fb, _ := fresh.BaseMetrics().Encode()
+		vrt.Assert(ferr == nil && ge == fe && gt == ft && gb == fb && got.IsEmpty() == fresh.IsEmpty() && got.TemporalMetrics().IsEmpty() == fresh.TemporalMetrics().IsEmpty(), "IF: a v2 environmental decoder that accepts a second vector returns what a fresh decoder returns (all three views)")
+	}
+	vrt.Reach("reuse harness runs to its end")
+}
